@@ -82,9 +82,55 @@ def model_value(m, v, st):
                 return {"$list": out}
             if isinstance(cell, CList):
                 return {"$list": [model_value(m, x, st) for x in cell.items]}
+            if isinstance(cell, Map):
+                return {"$map": map_entries(m, cell)}
+            if isinstance(cell, Ext):
+                return {"$ext": cell.name}
+        if v.k == FN:
+            return {"$fn": v.t[1]} if v.t[0] == "extfn" else f"<fn {v.t}>"
         return f"<{v.k}>"
     except Exception as ex:  # pragma: no cover
         return f"<unprintable {v.k}: {ex}>"
+
+
+def _keys_in(term, acc, depth=0):
+    if depth > 60:
+        return
+    if z3.is_store(term):
+        acc.append(term.arg(1))
+        _keys_in(term.arg(0), acc, depth + 1)
+    elif z3.is_app(term):
+        for ch in term.children():
+            if z3.is_array(ch):
+                _keys_in(ch, acc, depth + 1)
+
+
+def map_entries(m, cell):
+    """Entries of a symbolic dict under model m (keys mentioned by the model's array values)."""
+    from .pyval import PyKey
+    keys = []
+    for t in (cell.arr, cell.dom):
+        v = m.eval(t, model_completion=True)
+        _keys_in(v, keys)
+        if z3.is_as_array(v):
+            fi = m[z3.get_as_array_func(v)]
+            for e in fi.as_list()[:-1]:
+                keys.append(e[0])
+    out, seen = [], set()
+    for k in keys:
+        kv = m.eval(k, model_completion=True)
+        if str(kv) in seen:
+            continue
+        seen.add(str(kv))
+        if not z3.is_true(m.eval(z3.Select(cell.dom, kv), model_completion=True)):
+            continue
+        val = m.eval(z3.Select(cell.arr, kv), model_completion=True)
+        if kv.decl().name() == "IntKey":
+            key = kv.arg(0).as_long()
+        else:
+            key = kv.arg(0).as_string()
+        out.append([key, val.as_long() if cell.vk == "int" else val.as_string() if cell.vk == "str" else str(val)])
+    return out
 
 
 def to_smt2(pc, goal):
@@ -283,6 +329,9 @@ def prove_variant(reg, modules, file, qual, variant, timeout_ms=10000, prefix=""
                 d["model"] = {n: model_value(ob.model, v, eng.unit_pre) for n, v in eng.entry_names.items()}
                 d["model"]["$ghost"] = {g: model_value(ob.model, v, eng.unit_pre)
                                         for g, v in eng.unit_pre.ghost.items() if v.k != "seq"}
+                if eng.unit_pre.glob:
+                    d["model"]["$glob"] = {g: model_value(ob.model, v, eng.unit_pre)
+                                           for g, v in eng.unit_pre.glob.items()}
             except Exception as ex:
                 d["model"] = {"$error": str(ex)}
         if ob.status == "unknown":
